@@ -49,6 +49,10 @@ def unq_norm(s):
     return " ".join(s.replace("\n", " ").split())
 
 
+# (written, received) - the first five are safe inside an outer double quote too
+INNER_DECOYS = [("'x)'", "x)"), ("'('", "("), ("'tail\\'", "tail\\"), ("\\)", ")"), ("'a b'", "a b"), ('"y("', "y("), ('"p)q"', "p)q"), ("'a\"b'", 'a"b')]
+
+
 def inner_text(sub):
     k = sub["inner"]
     i = sub["id"]
@@ -64,6 +68,9 @@ def inner_text(sub):
         return "alias zz"
     if k == "builtin-pipeline":
         return "alias zz | vp_st flt 0 | vp_st flt 0"
+    if k == "quoted-args":
+        # further arguments of the inner command that look like the end of the substitution or of a quote
+        return "vp_out %s %s" % (i, " ".join(INNER_DECOYS[j][0] for j in sub["decoys"]))
     if k == "nested":
         # the inner command's argument comes from a substitution of the other spelling (out.N<id> holds <id>)
         return ("vp_out `vp_out N%s`" % i) if sub["form"] == "dollar" else ("vp_out $(vp_out N%s)" % i)
@@ -162,6 +169,10 @@ def symptom(case, exp, r, recs):
         want = 1
         if n != want:
             return "inner-command-ran-%d-times" % n
+        if sub["inner"] == "quoted-args":
+            got = [x["argv"][2:] for x in recs if x["name"] == "vp_out" and x["kind"] == "start" and x["argv"][1:2] == [sub["id"]]][0]
+            if got != [INNER_DECOYS[j][1] for j in sub["decoys"]]:
+                return "inner-command-received-other-arguments"
     if any(x["name"] == "vp_out" and x["argv"][1:2] == ["Z"] for x in recs):
         return "output-text-was-executed"
     outer = [x for x in recs if x["name"] in ("vp_argv", "vp_io")]
@@ -188,7 +199,7 @@ def symptom(case, exp, r, recs):
                 return "wrong-text"
     # inner stderr reaches the driver's stderr
     for sub in subs:
-        if sub["inner"] in ("simple", "pipeline", "failing", "var", "nested"):
+        if sub["inner"] in ("simple", "pipeline", "failing", "var", "nested", "quoted-args"):
             if ("ERR-%s\n" % sub["id"]).encode() not in r.err:
                 return "inner-stderr-lost"
     for sub in subs:
@@ -217,6 +228,11 @@ def judge(case):
     subs = [p for p in case["parts"] if p[0] == "sub"]
     parts0 = case["parts"]
     # known mechanisms outside substitution proper, decided on the shape of the case:
+    if case["ctx"] in ("unq", "here", "assign") and any(
+            p[1]["inner"] == "quoted-args" and any(set(INNER_DECOYS[j][0]) & set("()\\") for j in p[1]["decoys"]) for p in subs):
+        # outside double quotes the *line* tokenizer finds the end of `$(...)` by counting parentheses without
+        # looking at quotes or escapes inside it (inside double quotes find_matching_paren does it properly)
+        return ("violated", "C11:outside-double-quotes:inner-command-text-with-quoted-or-escaped-parenthesis-or-backslash:%s" % sym, res)
     if parts0[0][0] == "sub" and parts0[0][1]["form"] == "backquote" and len(parts0) > 1 and case["ctx"] in ("unq", "here", "assign"):
         # the tokenizer takes a word that *starts* with a backquote as a whole-token substitution and
         # glues the text after the closing backquote onto the command
@@ -247,7 +263,7 @@ def gen_case(rng, k):
         if lit:
             parts.append(("lit", lit))
         cls = rng.choice(list(OUTPUTS))
-        inner = rng.choice(["simple"] * 6 + ["pipeline", "failing", "var", "builtin", "builtin-pipeline", "notfound", "unparsable", "nested", "nested"])
+        inner = rng.choice(["simple"] * 6 + ["pipeline", "failing", "var", "builtin", "builtin-pipeline", "notfound", "unparsable", "nested", "nested", "quoted-args", "quoted-args"])
         parts.append(("sub", {"form": rng.choice(["dollar", "backquote"]), "inner": inner, "cls": cls,
                               "out": rng.choice(OUTPUTS[cls]), "id": "K%d" % i}))
     lit = rng.choice(lits)
@@ -259,6 +275,12 @@ def gen_case(rng, k):
         for p in parts:
             if p[0] == "sub" and p[1]["cls"] == "nested-syntax":
                 p[1]["cls"], p[1]["out"] = "plain", "out"
+    for p in parts:
+        if p[0] == "sub" and p[1]["inner"] == "quoted-args":
+            # inside an outer double quote only single-quoted / escaped decoys (a nested double quote closes the outer one
+            # for cicada's tokenizer; that is C01's ground)
+            pool = range(5) if ctx in ("dq", "assign-dq") else range(len(INNER_DECOYS))
+            p[1]["decoys"] = [rng.choice(list(pool)) for _ in range(rng.randint(1, 2))]
     return {"parts": parts, "ctx": ctx}
 
 
@@ -276,7 +298,7 @@ def run(tier, seed):
     rep = Report("C11", tier, seed)
     rep.rule = ("1..3 substitutions ($() or backquotes) per word with literal text around them, in unquoted / double-quoted "
                 "/ assignment / here-string context; inner commands: observer vp_out (simple, in a pipeline, failing, "
-                "named through a shell variable), a builtin, a not-found and an unparsable command; output texts from "
+                "named through a shell variable, with quoted arguments containing ) ( \\ and quotes, containing a substitution of the other spelling), a builtin, a not-found and an unparsable command; output texts from "
                 "17 classes ($1, ${x}, $NAME, backslashes, *, braces, regex-special, interior/trailing newlines, "
                 "leading/trailing blanks, nested substitution syntax, operators, quotes, empty, unicode).  Non-trivial "
                 "= always; distinct by full case.")
